@@ -79,6 +79,9 @@ GREEDY = [
     ("S: x+! x*;", "S: x+ x*;", 0),
     ("S: y x*! x? z;", "S: y x* x? z;", 1),
     ("S: A*! A*;\nA: x | y;", "S: A* A*;\nA: x | y;", 0),
+    # greedy repetitions with a separator, followed by something that starts with the separator
+    ("S: x+![c] R*;\nR: c x;", "S: x+[c] R*;\nR: c x;", 0),
+    ("S: y x*![c] R* z;\nR: c x;", "S: y x*[c] R* z;\nR: c x;", 1),
 ]
 
 IMPORT_CASE = {
